@@ -92,3 +92,26 @@ package ocidir
 //@   in ~/scheme/ocidir
 //@   infunc \)\.ManifestDelete$
 //@   requires index-rewritten-first: !caller.changed || $indexWritten
+
+// ---- C05 (OCI layout): a blob is renamed under its digest name only after verification ----
+//@ callsite os.Rename(oldpath, newpath)
+//@   prop C05
+//@   name os.Rename/BlobPut
+//@   in ~/scheme/ocidir
+//@   infunc \)\.BlobPut$
+//@   requires digest-is-computed: caller.d.Digest == $digestAt(caller.digester, $hv)
+//@   requires declared-digest-verified: !$valid(old(caller.d).Digest) || caller.d.Digest == old(caller.d).Digest
+//@   requires size-is-copied: caller.d.Size == caller.i
+//@   requires declared-size-verified: old(caller.d).Size <= 0 || caller.i == old(caller.d).Size
+//@   requires name-from-verified-digest: $valid(caller.d.Digest)
+//@ callsite io.Copy(dst, src)
+//@   prop C05
+//@   name io.Copy/BlobPut
+//@   in ~/scheme/ocidir
+//@   infunc \)\.BlobPut$
+//@   requires copies-through-digest-tee: $teeSrc(src) == old(caller.rdr) && $teeDst(src) == $hashOf(caller.digester)
+//@ func (*OCIDir).BlobPut(ctx, r, d, rdr) (dOut, err)
+//@   prop C05
+//@   ensures result-truthful: err == nil ==> dOut.Digest == $digestAt(digester, $hv) && dOut.Size == i
+//@   ensures declared-digest-honoured: err == nil && $valid(old(d).Digest) ==> dOut.Digest == old(d).Digest
+//@   ensures declared-size-honoured: err == nil && old(d).Size > 0 ==> dOut.Size == old(d).Size
